@@ -116,3 +116,9 @@ def replay_tier(pid, exclusions=True):
                 failure["label"], failure["message"][:300]))
             code = 1
     return lines, code
+
+
+@matcher("hash-numeric-tower")
+def _hash_numeric_tower(pid, facet, spec, label):
+    return pid == "C03" and facet == "hash_numeric_tower"\
+        and label == "C03:hash-numeric-tower"
